@@ -2650,7 +2650,10 @@ impl<'de, 'e> de::Deserializer<'de> for YamlDeserializer<'de, 'e> {
                 if let Some((ref tag_name, tag_loc)) = tagged_enum {
                     if _variants.contains(&tag_name.as_str()) {
                         let variant_name = tag_name.clone();
-                        // Consume the scalar and re-emit it without the tag for payload deserialization
+                        // Consume the scalar and re-emit it without the tag for payload
+                        // deserialization, so that it is interpreted exactly like the payload
+                        // in `{ Variant: payload }` (a plain `~` stays null-like, a quoted
+                        // scalar stays a string because the style is preserved).
                         let ev = self.ev.next()?.unwrap();
                         let replay = match ev {
                             Ev::Scalar {
@@ -2662,7 +2665,7 @@ impl<'de, 'e> de::Deserializer<'de> for YamlDeserializer<'de, 'e> {
                             } => {
                                 vec![Ev::Scalar {
                                     value,
-                                    tag: SfTag::String,
+                                    tag: SfTag::None,
                                     raw_tag: None,
                                     style,
                                     location,
